@@ -223,7 +223,7 @@ def c04(pid, tier, seed):
     fams = [
         fam("fin_single", conf="single", W=4, H=6, D=3 if q else 4, BarOps=finishes + ("burst", "set_message", "inc", "drop", "iter"), MsgShapes=("a", "W1"),
             Tpls=("MnC",), Fins=("AndLeave", "AndClear", "Abandon", "WithMessage", "AbandonWithMessage"), Hz=20, DTs=(0,), M0="id"),
-        fam("fin_single_unlimited", conf="single", W=4, H=6, D=3 if q else 4, BarOps=finishes + ("tick", "reset", "drop", "iter", "set_length"), MsgShapes=("a",),
+        fam("fin_single_unlimited", conf="single", W=4, H=6, D=3 if q else 4, BarOps=finishes + ("tick", "reset", "drop", "iter", "set_length", "set_position"), MsgShapes=("a",),
             Tpls=("MnC", "M"), Fins=("AndLeave", "AndClear", "Abandon", "WithMessage", "AbandonWithMessage"), M0="id"),
         fam("fin_multi_orders", conf="multi", W=4, H=12, Multi=True, MaxBars=3, D=6 if q else 7, BarOps=("finish", "drop"), MpOps=(), Tpls=("MC",), Fins=("AndLeave", "AndClear"),
             M0="id", shards=12),
